@@ -21,6 +21,7 @@ import (
 	"github.com/kstenerud/go-concise-encoding/ce/events"
 	"github.com/kstenerud/go-concise-encoding/configuration"
 	"github.com/kstenerud/go-concise-encoding/cte"
+	"github.com/kstenerud/go-concise-encoding/nullevent"
 )
 
 func init() {
@@ -262,7 +263,8 @@ func runC07(r *Run) {
 		if idx%211 == 0 {
 			r.out.Sample(fmt.Sprintf("%s (%d bytes) template=%s rules=%v: %s", what, len(doc), tname, rulesOn, trunc(hx(doc), 120)))
 		}
-		rec := func() events.DataEventReceiver { return &Recorder{} }
+		// a receiver that keeps nothing: millions of events must not make the harness itself the slow part
+		rec := func() events.DataEventReceiver { return nullevent.NewNullEventReceiver() }
 		type ep struct {
 			name string
 			fn   func()
